@@ -81,6 +81,12 @@ def flag_tables(chk, prog, props_rule="FLAG-TABLE"):
         else:
             got["traced"] = ret
     ok = got.get("T") == P("tf") and got.get("F") == P("ff") and got.get("traced") == ("where", F, P("tf"), P("ff"))
+    # "agree ... for concrete and array flags": the concrete arms accept operands of any shape / dtype (they just return one), so the array arm must be the
+    # BROADCASTING, dtype-promoting select (jnp.where); lax.select demands operands of the flag's shape and one dtype: where(array([T, F]), 3.0, 4.0) raises
+    import ast as _ast
+    sel_calls = [_ast.unparse(n.func) for n in _ast.walk(FO.methods["where"]) if isinstance(n, _ast.Call) and _ast.unparse(n.func).split(".")[-1] in ("select", "where", "select_n")]
+    canon = [prog.canon(FO.module, c) for c in sel_calls]
+    chk.require(len(canon) == 1 and canon[0] in ("jax.numpy.where",), props_rule, "FlagOp.where/broadcast", "array-flag select", derived=str(canon), expected="jnp.where(f, tf, ff) - broadcasts a vector flag against scalar operands and promotes dtypes, as the concrete arms implicitly do", where=W("where"))
     chk.require(ok, props_rule, "FlagOp.where", "True -> tf, False -> ff, traced select(f, tf, ff)", derived={k: show(v) for k, v in got.items()}.__str__(), expected="tf / ff / lax.select(f, tf, ff)", where=W("where"))
     r = ev.eval_fn(FO.methods["cond"], FO.module, FO)
     got = {}
